@@ -260,15 +260,17 @@ theorem em_pref_order (hr : cfg.repaired = true) (hi : Inv cfg s) (h : emStep cf
       simp only [unwritten, wedged, emUnwritten, emFailed, Bool.or_false, List.nil_append]
       exact h3
   | hold it =>
-    simp only [emStep, hem, hr, Bool.true_and] at h
+    simp only [emStep, hem, hr, Bool.true_and, ↓reduceIte] at h
     simp only [unwritten, wedged, hem, emUnwritten, emFailed, List.singleton_append, Bool.or_false] at h3
     step_cases h
-    · rename_i he
+    · refine ⟨h1, h2, ?_⟩
+      simp [wedged, emFailed]
+    · have he : s.err = true := by assumption
       refine ⟨h1, h2, ?_⟩
       simp [wedged, he]
     · refine ⟨h1, h2, ?_⟩
       simp [wedged, emFailed]
-    · rename_i he _
+    · have he : ¬ s.err = true := by assumption
       have he' : s.err = false := by simpa using he
       obtain ⟨h4, h5⟩ := h3 he'
       simp only [List.map_cons, List.length_cons, List.range'_succ, List.cons.injEq] at h4
@@ -312,7 +314,7 @@ theorem em_held (hr : cfg.repaired = true) (hi : Inv cfg s) (h : emStep cfg s = 
       simpa [unwritten, emUnwritten, hq] using h1
     · simpa [unwritten, emUnwritten] using h1
   | hold it =>
-    simp only [emStep, hem, hr, Bool.true_and] at h
+    simp only [emStep, hem, hr, Bool.true_and, ↓reduceIte] at h
     simp only [unwritten, hem, emUnwritten, List.singleton_append] at h1
     have hnh : it.st = .flushed → heldOK (apiHolding s.api) s.queue = true := by
       intro hf
